@@ -359,6 +359,9 @@ class GenWalker:
                 if isinstance(r, Opaque):
                     return r
                 result = r if isinstance(op, ast.In) else not r
+            elif isinstance(op, (ast.Is, ast.IsNot)) and (left is None or right is None) and any(isinstance(x, Obj) or (isinstance(x, Opaque) and getattr(x, "typ", None) in ("str", "int", "bool")) for x in (left, right)):
+                # str(...) / len(...) / a node of the expression tree is never None, whatever its value
+                result = isinstance(op, ast.IsNot)
             elif any(isinstance(x, (Opaque, Obj)) for x in (left, right)) or (
                 isinstance(right, (list, tuple)) and any(isinstance(x, Opaque) for x in right)
             ):
@@ -442,6 +445,8 @@ class GenWalker:
         fsrc = ast.unparse(node.func)
         if fsrc == "super" and not node.args:
             return _Super(env.get("self"), self._cur_cls)
+        if fsrc in ("nullcontext", "contextlib.nullcontext") and not node.args and fsrc.split(".")[0] not in env:
+            return _NullCtx()  # `guard = nullcontext() if first else gen.block()`: a with that changes nothing
         f = self.ev(node.func, env) if not isinstance(node.func, ast.Name) else env.get(node.func.id, fsrc)
         args = [self.ev(a, env) for a in node.args]
         kwargs = {k.arg: self.ev(k.value, env) for k in node.keywords if k.arg}
@@ -508,6 +513,14 @@ class GenWalker:
         if isinstance(f, str) and f in self.repo.mod(self._cur_rel).functions() and f not in ("version",):
             fn = self.repo.mod(self._cur_rel).functions()[f]
             return self.inline(self._cur_rel, None, fn, args, kwargs)
+        if isinstance(f, str) and isinstance(node.func, ast.Name):
+            # a helper imported from another module of the package (`from ..expression import emit_regex_match`)
+            found = self._imported_function(self._cur_rel, f)
+            if found is not None:
+                return self.inline(found[0], None, found[1], args, kwargs)
+            if any(isinstance(x, Gen) for x in args) or any(isinstance(v, Gen) for v in kwargs.values()):
+                # it is handed the Builder: it emits code this walk would not see
+                raise AnalysisError(f"{self.construct}: the helper {f}() is handed the Builder but cannot be followed (not a function of the package)")
         if isinstance(f, str):
             if f == "Builder":
                 return Gen(args[0] if args else kwargs.get("rules"))
@@ -643,6 +656,13 @@ class GenWalker:
         self._cur_cls = cls
         self._cur_rel = rel
         self.modconst = self.repo.mod(rel).constants()
+        # parameters not given take their defaults (a default left unbound would look open and fork the template)
+        for n, d in zip(names[len(names) - len(fn.args.defaults):], fn.args.defaults):
+            if n not in env:
+                env[n] = self.ev(d, {})
+        for a, d in zip(fn.args.kwonlyargs, fn.args.kw_defaults):
+            if a.arg not in env and d is not None:
+                env[a.arg] = self.ev(d, {})
         self.depth += 1
         try:
             self.block(fn.body, env)
@@ -652,6 +672,23 @@ class GenWalker:
         finally:
             self.depth -= 1
             self._cur_cls, self.modconst, self._cur_rel = saved
+
+    def _imported_function(self, rel: str, name: str) -> tuple[str, ast.FunctionDef] | None:
+        imp = self.repo.imports(rel).get(name)
+        if imp is None:
+            return None
+        modtext, orig = imp
+        tail = modtext.lstrip(".").replace(".", "/")
+        for other in self.repo.py_files:
+            if other == rel:
+                continue
+            stem = other[:-3] if other.endswith(".py") else other
+            if tail and not (stem.endswith("/" + tail) or stem.endswith("/" + tail + "/__init__") or stem == tail):
+                continue
+            fns = self.repo.mod(other).functions()
+            if orig in fns:
+                return other, fns[orig]
+        return None
 
     def _run_helper(self, stmts: list[ast.stmt], c: "_CtxHelper") -> None:
         saved = (self._cur_cls, self.modconst, self._cur_rel)
@@ -695,6 +732,8 @@ class GenWalker:
                     c = self.ev(i.context_expr, env)
                     if isinstance(c, _Block):
                         c.gen.indent += 1
+                    elif isinstance(c, _NullCtx):
+                        continue
                     elif isinstance(c, _CtxHelper):
                         self._run_helper(c.pre, c)
                     else:
@@ -803,6 +842,10 @@ class _Bound:
 class _Block:
     def __init__(self, gen: Gen):
         self.gen = gen
+
+
+class _NullCtx:
+    """contextlib.nullcontext(): entering and leaving it does nothing."""
 
 
 class _CtxHelper:
